@@ -12,9 +12,13 @@ import (
 	"net/url"
 	"strings"
 
+	"github.com/vektah/gqlparser/v2/ast"
+	"github.com/vektah/gqlparser/v2/gqlerror"
+
 	"github.com/99designs/gqlgen/graphql"
 	"github.com/99designs/gqlgen/graphql/handler"
 	"github.com/99designs/gqlgen/graphql/handler/extension"
+	"github.com/99designs/gqlgen/graphql/handler/lru"
 	"github.com/99designs/gqlgen/graphql/handler/transport"
 
 	"verif/handschema"
@@ -98,7 +102,21 @@ func rhMap(rh string) map[string][]string {
 
 var orderAlphabet = []string{"default", "reversed"}
 
+// Step is one earlier request of a history (sent on the same server before the case's own request).
+type Step struct {
+	Doc     DocSpec      `json:"doc"`
+	OpName  OpNameChoice `json:"operation_name"`
+	Carrier string       `json:"carrier"`
+	Accept  string       `json:"accept"`
+}
+
 // Case is one fully specified request against one server configuration.
+//
+// A case with History == "" is a single request on a server built like handler.New (no caches).
+// A case with History != "" is a short history: a fresh server configured like
+// handler.NewDefaultServer (LRU query-document cache of 1000 entries, AutomaticPersistedQuery)
+// receives the requests in Before and then the case's own request; EVERY response of the
+// history is judged by the same per-request oracle.
 type Case struct {
 	Doc     DocSpec      `json:"doc"`
 	OpName  OpNameChoice `json:"operation_name"`
@@ -106,15 +124,24 @@ type Case struct {
 	Accept  string       `json:"accept"` // "" = header absent
 	RH      string       `json:"response_headers"`
 	Order   string       `json:"order"`
+	History string       `json:"history,omitempty"`
+	Before  []Step       `json:"before,omitempty"`
+}
+
+// steps flattens a case into the single-request cases its responses are judged as.
+func (c Case) steps() []Case {
+	var out []Case
+	for _, b := range c.Before {
+		out = append(out, Case{Doc: b.Doc, OpName: b.OpName, Carrier: b.Carrier, Accept: b.Accept, RH: c.RH, Order: c.Order})
+	}
+	return append(out, Case{Doc: c.Doc, OpName: c.OpName, Carrier: c.Carrier, Accept: c.Accept, RH: c.RH, Order: c.Order})
 }
 
 // ---- servers -----------------------------------------------------------------------------
 
 type rig struct {
 	hs      *handschema.Schema
-	servers map[string]*handler.Server // key rh|order
-	apqSrv  map[string]*handler.Server // key rh|order, with APQ extension
-	apq     graphql.MapCache[string]
+	servers map[string]*handler.Server // plain servers, reused (they hold no state); key rh|order
 }
 
 func newRig() *rig {
@@ -122,8 +149,7 @@ func newRig() *rig {
 	hs.Sub = func(ctx context.Context, field string, args map[string]any, call int) handschema.SubStep {
 		return handschema.SubStep{Kind: "emit", Val: 7}
 	}
-	return &rig{hs: hs, servers: map[string]*handler.Server{}, apqSrv: map[string]*handler.Server{},
-		apq: graphql.MapCache[string]{}}
+	return &rig{hs: hs, servers: map[string]*handler.Server{}}
 }
 
 func buildServer(hs *handschema.Schema, rh, order string) *handler.Server {
@@ -139,6 +165,9 @@ func buildServer(hs *handschema.Schema, rh, order string) *handler.Server {
 		transport.GRAPHQL{ResponseHeaders: h},
 	}
 	srv := handler.New(hs)
+	// graphql.DefaultRecover without its stack dump to stderr (a defect that lets an unvalidated
+	// document reach the schema would otherwise flood the output)
+	srv.SetRecoverFunc(func(ctx context.Context, err any) error { return gqlerror.Errorf("internal system error") })
 	if order == "reversed" {
 		for i := len(ts) - 1; i >= 0; i-- {
 			srv.AddTransport(ts[i])
@@ -151,20 +180,22 @@ func buildServer(hs *handschema.Schema, rh, order string) *handler.Server {
 	return srv
 }
 
-func (r *rig) server(rh, order string, apq bool) *handler.Server {
+func (r *rig) server(rh, order string) *handler.Server {
 	k := rh + "|" + order
-	m := r.servers
-	if apq {
-		m = r.apqSrv
-	}
-	if s, ok := m[k]; ok {
+	if s, ok := r.servers[k]; ok {
 		return s
 	}
 	s := buildServer(r.hs, rh, order)
-	if apq {
-		s.Use(extension.AutomaticPersistedQuery{Cache: r.apq})
-	}
-	m[k] = s
+	r.servers[k] = s
+	return s
+}
+
+// defaultConfigServer builds a fresh server with the caches handler.NewDefaultServer configures:
+// an LRU query-document cache and the APQ extension (with its own fresh cache).
+func (r *rig) defaultConfigServer(rh, order string) *handler.Server {
+	s := buildServer(r.hs, rh, order)
+	s.SetQueryCache(lru.New[*ast.QueryDocument](1000))
+	s.Use(extension.AutomaticPersistedQuery{Cache: graphql.MapCache[string]{}})
 	return s
 }
 
@@ -293,16 +324,30 @@ func (r *rig) send(srv *handler.Server, w wire, accept string) Obs {
 	return o
 }
 
-// run executes one case on the real handler. For GET-apq the document is first registered by a
-// POST carrying text and hash (on the same server, fresh cache), then the GET is observed.
-func (r *rig) run(c Case) (Obs, wire) {
-	car := carrierByName(c.Carrier)
-	srv := r.server(c.RH, c.Order, car.APQ)
-	doc := c.Doc.Text()
-	if car.APQ {
-		for k := range r.apq {
-			delete(r.apq, k)
-		}
+// StepObs is one judged request of a case: its single-request view, what went on the wire, what came back.
+type StepObs struct {
+	Case Case `json:"case"`
+	Wire wire `json:"request"`
+	Obs  Obs  `json:"observed"`
+}
+
+// run executes one case on the real handler and returns one StepObs per judged request.
+//
+// Single requests go to a cache-less server. APQ carriers and histories get a fresh
+// default-configuration server (query cache + APQ). For GET-apq the document is first registered
+// by a POST carrying text and hash on that server (not judged), then the GET is observed.
+func (r *rig) run(c Case) []StepObs {
+	var srv *handler.Server
+	steps := c.steps()
+	if c.History != "" || carrierByName(c.Carrier).APQ {
+		srv = r.defaultConfigServer(c.RH, c.Order)
+	} else {
+		srv = r.server(c.RH, c.Order)
+	}
+	out := make([]StepObs, 0, len(steps))
+	for _, st := range steps {
+		car := carrierByName(st.Carrier)
+		doc := st.Doc.Text()
 		if car.Name == "GET-apq" {
 			// registration names no operation: for multi-operation documents it is refused after
 			// the APQ extension has stored the text, so registering never depends on the selection
@@ -310,7 +355,8 @@ func (r *rig) run(c Case) (Obs, wire) {
 				Body: jsonBody(doc, OpNameChoice{}, apqExt(sha(doc)))}
 			r.send(srv, reg, "")
 		}
+		w := encode(car, doc, st.OpName)
+		out = append(out, StepObs{Case: st, Wire: w, Obs: r.send(srv, w, st.Accept)})
 	}
-	w := encode(car, doc, c.OpName)
-	return r.send(srv, w, c.Accept), w
+	return out
 }
